@@ -229,6 +229,8 @@ Definition reorder_var (var : nat) (al : levels_t) : MS (nat * levels_t) :=
   let '(start, end_) := if decide (n <= 2 * level) then (n, 0) else (0, n) in
   r <- shift level start al ;; let '(_, al) := r in
   r <- shift start end_ al ;; let '(sizes, al) := r in
+  (* single variable: no other level to move to *)
+  if decide (sizes = []) then ret (level, al) else
   km <- of_opt EValue (argmin sizes) ;; let '(k, mk) := km in
   r <- shift end_ k al ;; let '(_, al) := r in
   s' <- get ;;
@@ -243,8 +245,6 @@ Definition apply_sifting : MS unit :=
   let n := len s in
   al <- levels_ ;;
   names <- pop_order (set_map Pos.of_succ_nat (dom (vars s))) ;;
-  (* [m] is unbound without variables: UnboundLocalError *)
-  ensure ERuntime (bool_decide (names ≠ [])) ;;;
   al <- foldM (fun al p =>
           r <- reorder_var (Nat.pred (Pos.to_nat p)) al ;; ret (snd r)) al names ;;
   s' <- get ;;
